@@ -4,6 +4,11 @@
 #![allow(unused)]
 use join::*;
 
+// block captures run on the CALLING thread, before the step, in every variant: the caller's value of this thread-local is
+// 100, a spawned thread / task would see 0
+thread_local! { static OFF: std::cell::Cell<u8> = std::cell::Cell::new(0); }
+fn off() -> u8 { OFF.with(|c| c.get()) }
+
 macro_rules! sync_try_progs {
     ($m:ident, $a:expr) => {{
         let a: u8 = $a;
@@ -14,6 +19,9 @@ macro_rules! sync_try_progs {
         out.push(format!("{:?}", $m! { Some(a) |> |v| v.wrapping_add(1), Some(2u8) ~?> |v| *v > 1, Some(3u8), map => |x: u8, y: u8, z: u8| x.wrapping_add(y).wrapping_add(z) }));
         out.push(format!("{:?}", $m! { Some(a) ~|> { let k = 2u8; move |v: u8| v.wrapping_add(k) } ~|> |v| v, let n = Some(4u8) ~|> |v| v + 1 }));
         out.push(format!("{:?}", $m! { Some(Some(a)) |> >>> |> |v: u8| v.wrapping_add(1) <<< ~|> |v| v, Some(Some(1u8)) }));
+        // block operands of every operator family read the caller's thread-local
+        out.push(format!("{:?}", $m! { Some(a) |> { let o = off(); move |v: u8| v.wrapping_add(o) } => { let o = off(); move |v: u8| Some(v.wrapping_add(o)) }, { let o = off(); Some(o) } -> { let o = off(); move |v: Option<u8>| v.map(|x| x.wrapping_add(o)) } ~-> { let o = off(); move |v: Option<u8>| v.map(|x| x.wrapping_add(o)) } }));
+        out.push(format!("{:?}", $m! { Ok::<u8, u8>(a) ~=> { let o = off(); move |v: u8| if v > 250 { Err(o) } else { Ok(v.wrapping_add(o)) } } ~<= { let o = off(); move |e: u8| Ok::<u8, u8>(e.wrapping_add(o)) }, Err::<u8, u8>(1) <| { let o = off(); Ok::<u8, u8>(o) } ~!> { let o = off(); move |e: u8| e.wrapping_add(o) } ~?? { let o = off(); move |r: &Result<u8, u8>| { let _ = (r, o); } } }));
         out
     }};
 }
@@ -26,6 +34,7 @@ macro_rules! sync_progs {
         out.push(format!("{:?}", $m! { Some(a), Some(2u8) ~|> |v| v + 1, Some(3u8) ~|> |v| v ~|> |v| v * 2, then => |x: Option<u8>, y: Option<u8>, z: Option<u8>| (z, y, x) }));
         out.push(format!("{:?}", $m! { Some(a) ~|> |v| v }));
         out.push(format!("{:?}", $m! { a -> |v: u8| v.wrapping_add(3), Some(1u8) ?? |_v| {}, Some(2u8) ~<= || Some(9) }));
+        out.push(format!("{:?}", $m! { a -> { let o = off(); move |v: u8| v.wrapping_add(o) } ~-> { let o = off(); move |v: u8| v.wrapping_add(o) }, vec![a, 2, 3].into_iter() ?> { let o = off(); move |v: &u8| *v < o } |> { let o = off(); move |v: u8| v.wrapping_add(o) } ^@ { off() }, { let o = off(); move |acc: u8, v: u8| acc.wrapping_add(v).wrapping_add(o) }, { let o = off(); Some(o) } |> >>> -> { let o = off(); move |v: u8| v.wrapping_add(o) } <<< }));
         out
     }};
 }
@@ -87,6 +96,7 @@ fn main() {
             for ctx in ["main", "named", "unnamed"] {
                 let run = move || -> Result<Vec<(String, Vec<String>)>, String> {
                     let r = std::panic::catch_unwind(|| {
+                        OFF.with(|c| c.set(100));
                         let mut v = sync_all(a);
                         let rt = tokio::runtime::Builder::new_multi_thread().worker_threads(2).enable_all().build().unwrap();
                         v.extend(rt.block_on(async_all(a)));
@@ -121,5 +131,5 @@ fn main() {
     let f: Vec<String> = failures.iter().map(|(i, w)| format!("{{\"input\":{},\"what\":{}}}", jstr(i), jstr(w))).collect();
     let s: Vec<String> = samples.iter().map(|x| jstr(x)).collect();
     println!("{{\"family\":\"spawn_agree\",\"cases\":{},\"passed\":{},\"nontrivial\":{},\"exhaustive\":false,\"failures\":[{}],\"samples\":[{}],\"notes\":[{}]}}",
-        cases, passed, cases, f.join(","), s.join(","), jstr(&format!("14 programs x 3 inputs x 3 calling-thread contexts (main / named / unnamed) x {} repetitions; one schedule per run", reps)));
+        cases, passed, cases, f.join(","), s.join(","), jstr(&format!("17 programs (3 of them with block operands on every operator family reading a thread-local of the calling thread) x 3 inputs x 3 calling-thread contexts (main / named / unnamed) x {} repetitions; one schedule per run", reps)));
 }
